@@ -296,6 +296,15 @@ func classify(c *Case) (bool, []string) {
 		if st.Clears > 0 {
 			cls = append(cls, "lzw-table-reset")
 		}
+		// the longest table string, by the reference decoder's table
+		for _, l := range []int{256, 1024, 2048, 3072} {
+			if st.MaxString >= l {
+				cls = append(cls, fmt.Sprintf("lzw/dict-string>=%d", l))
+			}
+		}
+		if c.obs.dataLen >= 4<<20 && (c.Data.Class == fg.ClassConst || c.Data.Class == fg.ClassLongRuns || c.Data.Class == fg.ClassBlankPage) {
+			cls = append(cls, "lzw/repetitive>=4MiB")
+		}
 	}
 	for ft, n := range c.obs.pngTags {
 		if n > 0 {
